@@ -134,6 +134,11 @@ example : producerOps .asyncio ENV ['q', '1'] = .ok ([.probe ['q', '1']], ⟨[],
       .ok [.exchange (.str sEngine) (.str sTopic) (.bool true) (.bool false) (.bool false) .null] := by
   refine ⟨by rfl, rfl, rfl, by rfl⟩
 
+/-- an address that describes an *internal* exchange (`{"node":{"x-declare":{"exchange":"x","internal":true}}}`) declares an internal
+exchange: the `internal` key of `x-declare` is passed through like `durable` and `auto-delete` -/
+example : (producerOps .blocking ENV ['{', '"', 'n', 'o', 'd', 'e', '"', ':', '{', '"', 'x', '-', 'd', 'e', 'c', 'l', 'a', 'r', 'e', '"', ':', '{', '"', 'e', 'x', 'c', 'h', 'a', 'n', 'g', 'e', '"', ':', '"', 'x', '"', ',', '"', 'i', 'n', 't', 'e', 'r', 'n', 'a', 'l', '"', ':', 't', 'r', 'u', 'e', '}', '}', '}']).map (fun r => created r.1) =
+    .ok [.exchange (.str ['x']) (.str ['d', 'i', 'r', 'e', 'c', 't']) (.bool false) (.bool false) (.bool true) .null] := by rfl
+
 /-- `address_declares` applies to the shipped configuration (both queue types, a uuid instance id, a fresh broker) -/
 example : ∀ qt : QType,
     Clean (sharedName QN qt) ∧ Clean (instanceName QN qt IID) ∧ Clean (replyName qt IID) ∧
